@@ -74,6 +74,16 @@ def _record(entry):
     return verdict
 
 
+YIELD_IO = False      # when set, every raw read / write on a recorded file is a scheduler yield point
+
+
+def _io_yield(what):
+    if YIELD_IO:
+        from . import sched
+        if sched.S is not None and sched.S.me() is not None:
+            sched.S.yield_(what)
+
+
 class RecRaw(io.FileIO):
     def __init__(self, name, mode):
         self._rel = rel(name)
@@ -84,9 +94,15 @@ class RecRaw(io.FileIO):
             if 'w' in mode or 'x' in mode or ('a' in mode and not existed):
                 _record({'op': 'create', 'file': self._rel})
 
+    def readinto(self, b):
+        if self._rel is not None:
+            _io_yield('io-read')
+        return super().readinto(b)
+
     def write(self, b):
         if self._rel is None:
             return super().write(b)
+        _io_yield('io-write')
         data = bytes(b)
         off = os.fstat(self.fileno()).st_size if 'a' in self.mode else self.tell()
         entry = {'op': 'write', 'file': self._rel, 'off': off, 'data': data}
